@@ -789,7 +789,12 @@ func Within(s []float64, v float64) int {
 	}
 	for i, f := range s[1:] {
 		if v < f {
-			return i
+			// s[i] is NaN when v is less than the first
+			// element following leading NaNs.
+			if s[i] <= v {
+				return i
+			}
+			return -1
 		}
 	}
 	return -1
